@@ -66,6 +66,19 @@ def _stack(xs, axis):
     return np.stack(xs, axis=axis)
 
 
+class ShapedNonTensor:
+    """Not a tensor of the backend, but it has the right .shape and converts to an array: must be rejected, not returned."""
+
+    def __init__(self, a):
+        self._a = a
+        self.shape = a.shape
+        self.ndim = a.ndim
+        self.dtype = a.dtype
+
+    def __array__(self, dtype=None, copy=None):
+        return self._a if dtype is None else self._a.astype(dtype)
+
+
 def make_elementary(name, rec, out_shapes, bad=None):
     """Elementary function for adapt_with_vmap: every output element depends on every input element and its position."""
 
@@ -84,6 +97,8 @@ def make_elementary(name, rec, out_shapes, bad=None):
             outs.append(o)
         if bad == "bad_type":
             outs[-1] = outs[-1].tolist()
+        elif bad == "bad_type_shaped":
+            outs[-1] = ShapedNonTensor(outs[-1])
         elif bad == "bad_rank":
             outs[-1] = outs[-1][..., None]
         elif bad == "bad_shape":
